@@ -4,6 +4,7 @@ import (
 	"bytes"
 	"fmt"
 	"math/rand"
+	"regexp"
 
 	"github.com/cinar/indicator/v2/asset"
 	"github.com/cinar/indicator/v2/strategy"
@@ -53,6 +54,12 @@ func spawnPipe[I, O any](capacity int, inputs [][]I, build func(in []<-chan I) [
 		}
 	})
 }
+
+var generatedRe = regexp.MustCompile(`[0-9]{4}-[0-9]{2}-[0-9]{2} [0-9]{2}:[0-9]{2}:[0-9]{2}[^<\n]*`)
+
+// stripGenerated removes the "generated on" time stamp of a rendered report (the clock differs
+// between two renderings; it is not part of what Compute/Report produce from the input).
+func stripGenerated(html string) string { return generatedRe.ReplaceAllString(html, "T") }
 
 // C09 (controlled part): instances are reusable - any number of Compute/Report calls on one
 // instance, one after another or alive at the same time, give the results of fresh instances.
@@ -274,7 +281,7 @@ func (c09) Run(c *Case, st *Stats) []Violation {
 					add("deadlock-on-shared-instance", fmt.Sprintf("call %d (Report) never returned; %s", k, stuckSummary(simOut.Stuck)))
 					break
 				}
-				if html[k].String() != fbuf.String() {
+				if stripGenerated(html[k].String()) != stripGenerated(fbuf.String()) {
 					add("differs-from-fresh-instance", fmt.Sprintf("call %d (Report): rendered report differs from a fresh instance's", k))
 					break
 				}
